@@ -72,7 +72,7 @@ static int g_deadline_latched = 0;
 const char* __asan_default_options(void);
 const char* __asan_default_options(void) {
     return "abort_on_error=1:detect_leaks=0:allocator_may_return_null=1:"
-           "max_allocation_size_mb=1024:handle_abort=0:symbolize=1:"
+           "max_allocation_size_mb=48:handle_abort=0:symbolize=1:"
            "detect_stack_use_after_return=0:malloc_context_size=8:print_legend=0:"
            "quarantine_size_mb=4:thread_local_quarantine_size_kb=64:allocator_release_to_os_interval_ms=-1";
 }
